@@ -33,36 +33,30 @@ PROPS = {
          "(byte offsets into the key file) and the start-position value D9C54592621D7040 pinned by computation over the regenerated keys.",
          ""),
  "C05": ("proof",
-         "Theorems: 1026 keys pairwise distinct; every single-feature change (a square, the side, the rights/en-passant state) of any well-formed position changes H; all 525825 pairwise XORs distinct, "
-         "hence no collision between positions differing in one or two features; H p = H p' iff the keys of the differing features cancel. Collision freedom over the explored set is an exploration by "
-         "nature (injectivity on all positions is false by counting): the run checks it on every position of the playouts and reports it separately in the evidence.",
-         ""),
+         "Theorems: 1026 keys pairwise distinct; every single-feature change (a square, the side, the rights/en-passant state) of any well-formed position changes H; all 525825 pairwise XORs distinct, hence no collision between positions differing in one or two features; H p = H p' iff the keys of the differing features cancel. Collision freedom over the explored set is an exploration by nature (injectivity on all positions is false by counting): the run enumerates the legal-move trees of the six perft roots (depth 4-5, about 4.7 million distinct positions in the quick tier, more in the thorough tier) on the real code and checks that no two distinct positions share a hash; it is reported separately in the evidence.",
+         'the collision-freedom half is exploration over the enumerated trees, not a theorem.'),
  "C06": ("proof",
-         "Theorems (Proofs/SearchInv1.v instantiated with the chess invariant): every search from a sound table ends in a sound table; the announced move is in the checked list of the root or there is an "
-         "explicit 64-bit collision witness; every reachable game meets the hypotheses. The 'none iff dead' half is proved in the direction dead => none (C10) and checked by the oracle in the other.",
-         "64-bit hash collisions are an explicit disjunct of the theorem (bounded by C05)."),
+         'Theorems: every search from a sound table ends in a sound table; the announced move is in the checked list of the root or there is an explicit 64-bit collision witness; every reachable game meets the hypotheses; and (ScoreRange2.v, for games of bounded material - true of the initial array and preserved by every move) for every table a session can produce: no move is announced ONLY when the root has no legal move (C06_none_iff_dead), proved through score-range invariants of quiescence, depth-1, node and root. Proving this exposed a genuine defect (a searched dead root poisoned the table; fix 6a8f7c7).',
+         '64-bit hash collisions are an explicit disjunct of the legality theorem (bounded by C05); the none-iff-dead half assumes bounded material (Bounded).'),
  "C07": ("proof",
-         "Theorems: after the poll that sees the flag down no further node is entered (hook counter = 0 for every stop index), at most N+1 polls; stopped before the first iteration completes the answer is "
-         "the first checked move; in general the answer is the last completed iteration's move. The run stops the real search at poll indices 0..39 and a geometric sample up to 10000.",
-         "wall-clock promptness is measured, not proved (thread wake-up, OS scheduling)."),
+         'Theorems: after the poll that sees the flag down no further node is entered (hook counter = 0 for every stop index), at most N+1 polls; the answer is the best move of the last completed iteration, or the first checked move when none completed; and (ScoreRange2.v, bounded material, every table a session can produce) a stop at ANY poll index yields a move whenever a legal move exists (C07_answers_when_stopped). The run stops the real search at poll indices 0..39 and a geometric sample up to 10000, with fresh tables and with the root cached exact.',
+         'wall-clock promptness is measured, not proved (thread wake-up, OS scheduling); the always-answers theorem assumes bounded material.'),
  "C08": ("proof",
          "Theorems: iteration depths consecutive from the starting depth, none beyond max(limit, cached depth) or 255; with a deeper exact root entry exactly one (table-hit) iteration; the model's recursion "
          "never runs out of fuel on any board (quiescence terminates: a potential of at most 128 decreases with every tactical move); killer index in range. The run searches with limits below / at / above "
          "cached depths and runs unlimited searches of tiny positions in the release and the overflow-checked build.",
          ""),
  "C09": ("proof",
-         "Theorems (Proofs/AlphaBeta*.v): move ordering is a permutation; quiescence, the depth-1 specialisation and the full PVS node (null-window probe and re-search included) are bound-consistent with "
-         "the exhaustive reference for every window, ordering, killer and history state; the table-less root returns exactly the reference value on trees without a blocked node whose king-capture interval "
-         "is a point (root_exact_iv). Counterexamples machine-checked for the two excluded tree classes. The run compares the real code's table-less root score with the extracted reference at depth 1-3(4).",
-         "scores beyond +-9000 (mate / king capture) are compared after clamping, as the property allows; trees with a blocked node are skipped and counted."),
+         "Theorems (Proofs/AlphaBeta*.v): move ordering is a permutation; quiescence, the depth-1 specialisation and the full PVS node (null-window probe and re-search included) are bound-consistent with the exhaustive reference for every window, ordering, killer and history state; the table-less root returns exactly the reference value on trees without a blocked node whose king-capture interval is a point (root_exact_iv). Counterexamples machine-checked for the excluded tree classes. The run (a) compares the real code's table-less root score with the extracted reference at depth 1-3(4) and (b) calls the three search functions directly (hook entry points) with about 150 windows per position placed around the node's exhaustive value: same result as the extracted model, and inside the proved bound-consistency relation.",
+         'scores beyond +-9000 (mate / king capture) are compared after clamping, as the property allows; trees with a blocked node are skipped and counted.'),
  "C10": ("proof",
          "Theorem C10_dead_root (a root without legal moves is answered with no move, for every table/limit/stop). The mate-finding half is decided by the correspondence run against the independent solver "
          "Rules.forced_mate_in (mate in one at depth 3, 4 and unlimited; forced mate in two at depth 5 and 6; self-termination on the mate) - a theorem for it would need value-exactness with the table on, "
          "which does not hold ply-for-ply (mate scores are ply-relative); this part is therefore exploration-level and said so.",
          "mate-finding half: exploration with an independent oracle, not a theorem."),
  "C11": ("proof",
-         "Theorems: fields 1-4 of the exported text = FenSpec.render (abs g) and six well-formed fields, in every reachable game; re-import succeeds with the same position and the same hash; parse (render p) = p.",
-         ""),
+         'Theorems: fields 1-4 of the exported text = FenSpec.render (abs g) and six well-formed fields, in every reachable game; re-import succeeds with the same position and the same hash, unconditionally for every game reached by legal play; parse (render p) = p. The run also re-imports the exported text on the real code (same fields, hash and legal moves), including games of 300 and 396 plies and scripted en-passant / promotion-capture games.',
+         ''),
  "C12": ("proof",
          "Theorems: generated moves are written as Notation.move_text (standard UCI); from_uci (uci m) g = Some m; distinct generated moves have distinct texts; a string of move shape is accepted by the "
          "position command's test exactly when it is the text of a checked move and then exactly that move is played. The run pushes all 20480 move-shaped strings through the real parser in each position.",
@@ -95,9 +89,8 @@ PROPS = {
          "The run replays every printed line through Rules.legal / Rules.apply.",
          "64-bit hash collisions are an explicit disjunct."),
  "C19": ("proof",
-         "The model's driver is a function of (game, table, limit, stop index) with killers and history created inside (pinned); what only the tie can show - that the implementation has no hidden input - is "
-         "checked by running each (position, depth) repeatedly on the real binary under load, different memory layouts and after prefixes ending in ucinewgame: all transcripts identical and equal to the model's.",
-         "absence of hidden inputs in the implementation (time, addresses, map iteration order) is not provable in a model; it rests on the perturbed runs."),
+         "Theorems (Model/Session.v, Proofs/SessionProofs.v): ucinewgame restores the initial state - whatever was searched before, every following command list produces the same outputs and final session as on a fresh engine; the output of go is a function of (game, table, limit, stop index), killers and history being created inside. What only the tie can show - that the implementation has no hidden input - is checked by running each (position, depth) repeatedly on the real binary under load, different memory layouts, after prefixes ending in ucinewgame and after a timed search that ended before its timer: all transcripts identical and equal to the model's.",
+         'absence of hidden inputs in the implementation (time, addresses, map iteration order, stale timer threads) is not provable in a model; it rests on the perturbed runs.'),
  "C20": ("proof",
          "Theorems: every record entry of a generated move equals Notation.record_entry (piece letter, origin file, capture mark, destination, promotion piece - over the regenerated letter tables); "
          "display decomposes into the Hash / Fen / PGN lines and the eight rank lines with the right glyphs; the hex text of the hash is correct. The run compares `show` and the record with the specification.",
@@ -127,7 +120,7 @@ def main():
             "guard": "daniel729_chess_verif",
             "enable": "RUSTFLAGS=\"--cfg daniel729_chess_verif\" cargo build --release (harness and engine binary are built this way by tools/build.sh)",
             "baseline_off_cmd": "cd /repo && cargo test --workspace --no-fail-fast --offline",
-            "source_commits": ["1a97382", "0741360", "6c7ff30"],
+            "source_commits": ["1a97382", "0741360", "6c7ff30", "6c9615f"],
             "add_only": True,
         },
         "engines": [{
